@@ -112,9 +112,9 @@ def ob_encrypt_asn1(mlen, c1c3c2):
                 if not result_ok(r):
                     raise Violation("encrypt_asn1 fails for a well-formed message")
                 if not (cap["comp"].conc() and cap["comp"].v is False):
-                    raise Violation("the raw ciphertext must be produced with the uncompressed C1 (both coordinates are encoded)")
+                    raise Inconclusive("structure not recognised (no verdict): " + "the raw ciphertext must be produced with the uncompressed C1 (both coordinates are encoded)")
                 if cap["model"].variant != (1 if c1c3c2 else 0):
-                    raise Violation("component order not passed on to encrypt")
+                    raise Inconclusive("structure not recognised (no verdict): " + "component order not passed on to encrypt")
                 ct = [dom.term(b) for b in cap["ct"]]
                 n = len(ct)
                 c3, c2 = (ct[65:97], ct[97:]) if c1c3c2 else (ct[n - 32:], ct[65:n - 32])
@@ -189,7 +189,7 @@ def ob_decrypt_asn1(lx, ly, lh, lc, c1c3c2):
             discharge(stats, ctx.facts + ctx.pc, z3.And([a == b for a, b in zip(cap["buf"], want)]),
                       "decrypt receives 04 || leftpad32(x) || leftpad32(y) || %s" % ("C3 || C2" if c1c3c2 else "C2 || C3"))
             if not (cap["comp"].conc() and cap["comp"].v is False):
-                raise Violation("decrypt must be told that C1 is uncompressed")
+                raise Inconclusive("structure not recognised (no verdict): " + "decrypt must be told that C1 is uncompressed")
         return {}
     return run_obligation("decrypt_asn1_x%d_y%d_h%d_c%d_%s" % (lx, ly, lh, lc, "c1c3c2" if c1c3c2 else "c1c2c3"), ["gm_sm2::key::Sm2PrivateKey::decrypt_asn1"],
                           "parsed INTEGER lengths |x|=%d |y|=%d (minimal encodings), |hash|=%d, |ciphertext|=%d; parser may also fail" % (lx, ly, lh, lc), body,
@@ -421,13 +421,13 @@ def ob_hex_wrappers():
             for ctx, (dom, log, (n0, n1), P, d, b) in live_paths(paths):
                 hy = ctx.facts + ctx.pc
                 if n0 != 1 or log[0][0] != "to_byte_be":
-                    raise Violation("Sm2PublicKey::to_bytes does not encode through Point::to_byte_be")
+                    raise Inconclusive("structure not recognised (no verdict): " + "Sm2PublicKey::to_bytes does not encode through Point::to_byte_be")
                 n = 33 if compress else 65
                 discharge(stats, hy, z3.And(log[0][1] == P, z3.BoolVal(log[0][2] == compress), z3.Concat(*[dom.term(x) for x in b.f]) == log[0][3], z3.BoolVal(len(b.f) == n)),
                           "to_bytes(compress) = to_byte_be(point, compress)")
                 hx = [e for e in log[n0:n1] if e[0] == "hex"]; tb = [e for e in log[n0:n1] if e[0] == "to_byte_be"]
                 if len(hx) != 1 or len(tb) != 1:
-                    raise Violation("Sm2PublicKey::to_hex_string: %d encodings, %d hex conversions" % (len(tb), len(hx)))
+                    raise Inconclusive("structure not recognised (no verdict): " + "Sm2PublicKey::to_hex_string: %d encodings, %d hex conversions" % (len(tb), len(hx)))
                 discharge(stats, hy, z3.And(tb[0][1] == P, z3.BoolVal(tb[0][2] == compress), z3.BoolVal(len(hx[0][1]) == n), z3.Concat(*hx[0][1]) == tb[0][3]),
                           "to_hex_string(compress) hex-encodes exactly to_byte_be(point, compress)")
                 hx2 = [e for e in log[n1:] if e[0] == "hex"]
